@@ -1164,6 +1164,80 @@ def gen_consts():
     write_if_changed("Consts.lean", "\n".join(consts))
 
 
+def gen_ndl_cert():
+    """C19/C14: the type-tag alternatives of `get_type` in `alt` order and the matcher used for
+    them, the string -> DecType table of `DecType::from` (with its fall-through), the DecType
+    variants, and the sections `machine_parser` requires."""
+    pu = strip_comments(read(os.path.join(ELVIS, "ndl", "parsing", "parser_util.rs")))
+    pd = strip_comments(read(os.path.join(ELVIS, "ndl", "parsing", "parsing_data.rs")))
+    mp = strip_comments(read(os.path.join(ELVIS, "ndl", "parsing", "machine_parser.rs")))
+    m = re.search(r"fn\s+get_type\s*\(", pu)
+    if not m:
+        raise ExtractError("parser_util.rs: fn get_type not found")
+    body = fn_body(pu, m.end())
+    am = re.search(r"alt\s*\(\s*\((.*?)\)\s*,?\s*\)\s*,?\s*\)\s*\(input\)", body, flags=re.S)
+    if not am:
+        raise ExtractError("parser_util.rs: get_type is no longer `context(.., alt((..)))(input)`")
+    entries = [e.strip() for e in am.group(1).split(",") if e.strip()]
+    tags, matchers = [], set()
+    for e in entries:
+        em = re.fullmatch(r"([a-z_]+)\(\s*\"([A-Za-z]+)\"\s*\)", e)
+        if not em:
+            raise ExtractError(f"parser_util.rs: get_type alternative `{e}` is not <matcher>(\"<letters>\")")
+        matchers.add(em.group(1))
+        tags.append(em.group(2))
+    if len(matchers) != 1 or not tags:
+        raise ExtractError(f"parser_util.rs: get_type mixes matchers {sorted(matchers)}")
+    matcher = matchers.pop()
+    if matcher not in ("tag_no_case", "keyword"):
+        raise ExtractError(f"parser_util.rs: unknown tag matcher `{matcher}` (model knows nom's tag_no_case and the local keyword)")
+    if not re.search(r"\.map\(\|\(next_input, res\)\| \(next_input, res\.into\(\)\)\)", body):
+        raise ExtractError("parser_util.rs: get_type no longer converts the matched tag with `.into()`")
+    em = re.search(r"pub\s+enum\s+DecType\s*\{(.*?)\}", pd, flags=re.S)
+    if not em:
+        raise ExtractError("parsing_data.rs: enum DecType not found")
+    variants = [v.strip() for v in em.group(1).split(",") if v.strip()]
+    fm = re.search(r"impl\s+From<&str>\s+for\s+DecType", pd)
+    if not fm:
+        raise ExtractError("parsing_data.rs: impl From<&str> for DecType not found")
+    fbody = fn_body(pd, fm.end())
+    if "match i.to_lowercase().as_str()" not in re.sub(r"\s+", " ", fbody):
+        raise ExtractError("parsing_data.rs: DecType::from no longer matches on i.to_lowercase()")
+    table = re.findall(r"\"([a-z]+)\"\s*=>\s*DecType::([A-Za-z]+)\s*,", fbody)
+    fall = re.search(r"_\s*=>\s*([a-z_]+!?)", fbody)
+    if not table or not fall:
+        raise ExtractError("parsing_data.rs: DecType::from arms not recognised")
+    fallthrough = fall.group(1)
+    if fallthrough not in ("unimplemented!", "panic!", "unreachable!", "todo!"):
+        raise ExtractError(f"parsing_data.rs: DecType::from fall-through `{fallthrough}` not modelled")
+    for _, v in table:
+        if v not in variants:
+            raise ExtractError(f"parsing_data.rs: DecType::{v} is not a variant")
+    rm = re.search(r"let\s+mut\s+req\s*=\s*vec!\[(.*?)\]", mp, flags=re.S)
+    if not rm:
+        raise ExtractError("machine_parser.rs: `let mut req = vec![..]` not found")
+    req = re.findall(r"DecType::([A-Za-z]+)", rm.group(1))
+    # texts are emitted as `List Char` literals (the model is over `List Char`; kernel evaluation
+    # of `String.toList` is avoided)
+    cl = lambda x: "[" + ", ".join("'%s'" % c for c in x) + "]"
+    q = lambda xs: "[" + ", ".join(cl(x) for x in xs) + "]"
+    lines = ["-- GENERATED from /repo sources by tools/extract.py on every check; do not edit",
+             "namespace Elvis.Gen.Ndl",
+             "/-- alternatives of `get_type`'s `alt((..))`, in source order -/",
+             f"def tagAlt : List (List Char) := {q(tags)}  -- {' '.join(tags)}",
+             "/-- the combinator applied to each alternative: nom's `tag_no_case` or the local `keyword` -/",
+             f'def tagMatcher : String := "{matcher}"',
+             "/-- variants of `enum DecType`, in source order -/",
+             f"def decTypeVariants : List (List Char) := {q(variants)}",
+             "/-- arms of `DecType::from` (`i.to_lowercase()` => variant); anything else hits the fall-through -/",
+             "def decTypeTable : List (List Char × List Char) := [" + ", ".join("(%s, %s)" % (cl(k), cl(v)) for k, v in table) + "]",
+             f'def decTypeFallthrough : String := "{fallthrough}"',
+             "/-- sections `machine_parser` requires exactly once each -/",
+             f"def machineRequired : List (List Char) := {q(req)}",
+             "end Elvis.Gen.Ndl", ""]
+    write_if_changed("NdlCert.lean", "\n".join(lines))
+
+
 def main():
     check_message_immutability()
     gen_consts()
@@ -1176,6 +1250,7 @@ def main():
     gen_dns_cert()
     extract_tcb_consts()
     extract_modcmp_kernels()
+    gen_ndl_cert()
 
 
 if __name__ == "__main__":
